@@ -43,6 +43,9 @@ def _is_missing(v):
     return False
 
 
+NAN_TOKEN = 'NaN-label'
+
+
 def labels_of(idx):
     """canonical python labels of an index (tuples for hierarchies)"""
     if getattr(idx, 'depth', 1) > 1:
@@ -50,6 +53,8 @@ def labels_of(idx):
     v = idx.values
     if v.ndim == 2:
         return [tuple(r) for r in v.tolist()]
+    if v.dtype.kind == 'f':
+        return [NAN_TOKEN if x != x else x for x in v.tolist()]
     return v.tolist() if v.dtype.kind != 'O' else list(v)
 
 
@@ -83,6 +88,10 @@ def _pools():
         'ih2': ([('b', 1), ('a', 2), ('a', 1), ('c', 1)], lambda ls: IH.from_labels(ls, depth_reference=2)),
         'ih2GO': ([('b', 1), ('a', 2), ('a', 1), ('c', 1)], lambda ls: sf.IndexHierarchyGO.from_labels(ls, depth_reference=2)),
         'ih2i': ([(1, 1), (1, 2), (2, 1), (0, 5)], lambda ls: IH.from_labels(ls, depth_reference=2)),
+        # the same kind of labels held as a float64 table (against ih2i's int64 table: equal element width, different dtype)
+        'ih2f': ([(1, 1.0), (1, 2.0), (2, 1.0), (0, 5.5)], lambda ls: IH.from_labels(ls, depth_reference=2)),
+        # one missing label on one side only (NaN is a label like any other for the set algebra; it is canonicalised to one token)
+        'floatnan': ([1.5, float('nan'), 3.0, 0.25], lambda ls: sf.Index(ls, dtype=np.float64)),
         'ih3': ([('a', 1, 'x'), ('a', 1, 'y'), ('b', 2, 'x'), ('a', 2, 'x')], lambda ls: IH.from_labels(ls, depth_reference=3)),
         'ihdate': ([('a', '2020-01-02'), ('a', '2020-01-01'), ('b', '2020-01-01'), ('c', '2021-05-05')],
                    lambda ls: IH.from_labels(ls, depth_reference=2, index_constructors=(sf.Index, sf.IndexDate))),
@@ -94,7 +103,8 @@ SET_PAIRS_QUICK = [('int', 'int'), ('str', 'str'), ('obj', 'obj'), ('tuple', 'tu
                    ('int', 'float'), ('float', 'int'), ('int', 'str'), ('str', 'obj'), ('obj', 'int'), ('intGO', 'int'),
                    ('bool', 'bool'), ('float', 'float'), ('objstr', 'str'), ('second', 'second'), ('ih2i', 'ih2i'), ('ih3', 'ih3'),
                    ('month', 'month'), ('dt64', 'dt64'), ('dt64', 'date'), ('ih2GO', 'ih2'), ('ihdate', 'ihdate'),
-                   ('int32', 'int'), ('int', 'int32'), ('strU1', 'strU3'), ('strU3', 'strU1'), ('str', 'objstr')]
+                   ('int32', 'int'), ('int', 'int32'), ('strU1', 'strU3'), ('strU3', 'strU1'), ('str', 'objstr'),
+                   ('ih2i', 'ih2f'), ('ih2f', 'ih2i'), ('float', 'floatnan'), ('floatnan', 'float')]
 SET_PAIRS_THOROUGH_ONLY = {('month', 'month'), ('second', 'second'), ('ih2GO', 'ih2'), ('float', 'int'), ('dt64', 'dt64')}
 SET_FUNCS = ('union', 'intersection', 'difference')
 
